@@ -4,7 +4,7 @@ set -u
 patch=$1; id=$2; tier=${3:-quick}
 cd /repo || exit 2
 if ! git diff --quiet; then echo "/repo has uncommitted changes"; exit 2; fi
-git apply "$patch" || { echo "PATCH DOES NOT APPLY"; exit 3; }
+git apply "$patch" 2>/dev/null || git apply -C1 "$patch" 2>/dev/null || git apply -C0 --recount "$patch" || { echo "PATCH DOES NOT APPLY"; exit 3; }
 cd /verif && ./verif check "$id" --tier "$tier" > /tmp/try_patch.$$.log 2>&1; rc=$?
 git -C /repo checkout -- . 
 grep -E "^(VIOLATION|KNOWN|INCONCLUSIVE|BUILD)|signature:" /tmp/try_patch.$$.log | head -8 | cut -c1-300
